@@ -143,7 +143,7 @@ func H_C11_caller() {
 }
 
 //verif:witness H_C11_sequence end
-//verif:bound C11 all sequences: four log calls from four adjacent call sites in one function (fast or default mode), each record must carry its own line (modelled program counters of adjacent call sites are 5 apart, the size of a call instruction); caller lookup switched on->off and off->on between two events through a sync logger that recycles its Event objects
+//verif:bound C11 all sequences: four log calls from four adjacent call sites in one function (fast or default mode), each record must carry its own line (modelled program counters of adjacent call sites are 5 apart, the size of a call instruction); every order of visiting two call sites five times (32 orders: revisits after another site, repeats); caller lookup switched on->off and off->on between two events through a sync logger that recycles its Event objects
 
 var vSeqTag *Tag
 
@@ -164,6 +164,19 @@ func vFourAdj(lines *[4]int) {
 	}
 }
 
+// vTwoSites: two call sites that a caller can visit in any order; returns the line of the one used.
+//
+//go:noinline
+func vTwoSites(which int, tag *Tag) int {
+	_, _, l0, _ := runtime.Caller(0)
+	if which == 0 {
+		Info(context.Background(), tag, Msg("a"))
+		return l0 + 2
+	}
+	Info(context.Background(), tag, Msg("b"))
+	return l0 + 5
+}
+
 func H_C11_sequence() {
 	savedEnable, savedFast := enableCaller, fastCaller
 	defer func() { enableCaller, fastCaller = savedEnable, savedFast }()
@@ -173,7 +186,21 @@ func H_C11_sequence() {
 	logger.AppenderRefs.AppenderRefs = []*AppenderRef{{Appender: app, Level: all}}
 	tag := &Tag{tag: "_t_x", logger: logger}
 	fastCaller = vChoose("fast", 2) == 1
-	if vChoose("scenario", 2) == 0 {
+	scenario := vChoose("scenario", 3)
+	if scenario == 2 {
+		// every order of visiting two call sites five times (revisits after another site, repeats)
+		enableCaller = true
+		var want [5]int
+		for i := range want {
+			want[i] = vTwoSites(vChoose("site", 2), tag)
+		}
+		vAssert(app.appends == 5, "events-emitted")
+		if app.appends == 5 {
+			for i := range want {
+				vAssert(app.events[i].Line == want[i], "revisited-call-site-reports-its-own-line")
+			}
+		}
+	} else if scenario == 0 {
 		enableCaller = true
 		var lines [4]int
 		vSeqTag = tag
